@@ -10,6 +10,9 @@
 //	pkg/storage/buffer.go  WriteBuffer:  Append, Drain, Requeue
 //	cmd/broker/main.go     handler:      handleProduce (calls into the log, reply fields, jumps, returns), getPartitionLog
 //	                                      (incl. the singleflight callback and the onFlush callback handed to NewPartitionLog)
+//	pkg/storage/segment.go BuildSegment (plain function): its error returns with their dominating conditions, the fallible
+//	                                      calls it makes (body.Write, index.BuildBytes) — prepareFlush calls it AFTER Drain
+//	pkg/storage/index.go   IndexBuilder:  BuildBytes (every error return follows a write into its bytes.Buffer)
 //
 // One row per fact, in SOURCE ORDER, per function (`lit` = 0 for the function body, k for the k-th function
 // literal written inside it):
@@ -103,6 +106,9 @@ var targets = []target{
 		fns:   []string{"handleProduce", "getPartitionLog"},
 		entry: map[string]bool{"handleProduce": true, "getPartitionLog": true}, reply: true,
 		from: map[string]string{"handleProduce": "getPartitionLog"}},
+	// appended at the END: the fid of every earlier function stays what the Lean side knows it as
+	{file: "pkg/storage/segment.go", typ: "", mu: "-", fns: []string{"BuildSegment"}, entry: map[string]bool{}},
+	{file: "pkg/storage/index.go", typ: "IndexBuilder", mu: "-", fns: []string{"BuildBytes"}, entry: map[string]bool{}},
 }
 
 // protocol functions whose calls are rows
@@ -112,6 +118,12 @@ var tracked = map[string]bool{
 	"recordsFromBatches": true, "BuildSegment": true, "PatchRecordBatchBaseOffset": true, "copy": true,
 	"getPartitionLog": true, "AppendBatch": true, "Flush": true, "RestoreFromS3": true, "NewPartitionLog": true,
 	"ensureTopic": true, "Do": true,
+}
+
+// calls recognised by receiver AND name (the bare names are too common to track everywhere): the fallible calls of
+// BuildSegment / IndexBuilder.BuildBytes
+var trackedQ = map[string]bool{
+	"body.Write": true, "index.BuildBytes": true, "index.MaybeAdd": true, "buf.WriteString": true, "binary.Write": true,
 }
 
 var seams = map[string]bool{"s3": true, "store": true}
@@ -484,7 +496,7 @@ func (w *walker) call(c *ast.CallExpr, binds []string, async bool) bool {
 			w.emit(Row{Kind: "sync", A: id.Name + ".Wait", Binds: binds}, c.Pos())
 			return true
 		}
-		if tracked[s.Sel.Name] {
+		if tracked[s.Sel.Name] || (w.t.mu == "-" && trackedQ[raw(s.X)+"."+s.Sel.Name]) {
 			w.emit(Row{Kind: "call", A: raw(s.X), B: s.Sel.Name, Args: w.args(c.Args), Binds: binds, Flag: async}, c.Pos())
 			return true
 		}
@@ -997,6 +1009,9 @@ func (w *walker) scanDefs(body *ast.BlockStmt) {
 func walk(t *target, ti *typeInfo, name string) []Row {
 	fd := ti.funcs[name]
 	_, self := recvInfo(fd)
+	if self == "" {
+		self = "<no receiver>" // a plain function: nothing is "a field of the receiver"
+	}
 	w := &walker{t: t, ti: ti, fn: name, entry: t.entry[name], self: self, tainted: map[string]bool{},
 		defs: map[string][]ast.Expr{}, copied: map[string]bool{}}
 	w.st = absState{lk: "inherit"}
